@@ -20,6 +20,10 @@ def run(ctx):
     #    the mirror succeeds exactly on 0 and 263..65542)
     r = tlc_expect_ok(tlc("MC_CborPad", "MC_CborPad.cfg", workers=4, timeout=600, coverage=False), "MC CborPad")
     ctx.add_tlc(r)
+    if not ctx.quick:
+        # unbounded: TLAPS proves SkippedExactly and Fillable for every natural gap (TLC: 0..70000)
+        nob = tlapm_prove("CborPad_proofs", ["CborPad"], threads=12)
+        ctx.assumptions.append("thorough tier: tlapm discharged %d proof obligations of CborPad_proofs (SkippedExactlyAll, FillableAll over all natural gaps)" % nob)
     m = tlc("MC_CborPad", "MC_CborPad_mono.cfg", name="c14mono", workers=4, timeout=600, coverage=False)
     if not m.violated:
         ctx.drift_note("CborPad", "mirror no longer violates monotonicity (CodedMonotone holds)")
